@@ -5,7 +5,7 @@
    and timers. *)
 From Coq Require Import NArith ZArith List Bool.
 From Cloak Require Import Model.Reorder Model.Mux Proofs.MuxBase Proofs.MuxSafety Proofs.MuxView
-  Proofs.MuxEffect Proofs.MuxPay Proofs.MuxData Proofs.MuxCalm Proofs.MuxCount Proofs.MuxUp.
+  Proofs.MuxEffect Proofs.MuxPay Proofs.MuxData Proofs.MuxCalm Proofs.MuxCount Proofs.MuxUp Proofs.MuxCov Proofs.MuxComplete.
 Import ListNotations.
 Local Open Scope N_scope.
 
@@ -55,14 +55,21 @@ Theorem C01_write_accepted_whole :
 Proof. exact healthy_write_accepted. Qed.
 Print Assumptions C01_write_accepted_whole.
 
-(* Full statement of the completeness half (everything written is read once every frame has been
-   delivered, on traces without close / fault / timer): not yet a theorem of this development;
-   decided on every run by the lock-step correspondence and the oracle (tools/props/c01.py), and by
-   the schedule-point replay of the add-vs-send window. *)
-Definition C01_complete_full : Prop :=
-  forall k sp u ta tb s sid ls,
-  fresh_run (init k sp u ta tb) ls ->
-  (forall l ch, In (l, ch) ls -> match l with LCloseStream _ _ | LCloseSession _ | LFail _ | LTick _ => False | _ => True end) ->
-  inflight s sid (reach k sp u ta tb ls) = [] ->
-  exists pipe_rest, run_written s sid ls (outputs k sp u ta tb ls) = run_reads s sid ls (outputs k sp u ta tb ls) ++ pipe_rest /\
-    match rview s sid (reach k sp u ta tb ls) with Some (rb, _) => pipe rb = pipe_rest | None => pipe_rest = [] end.
+(* Nothing is lost: on a healthy session (k >= 1 connections, multiplexed; any opens, writes, reads,
+   accepts, closes of OTHER streams, deliveries in any cross-connection order, timer ticks while
+   streams are open), for each direction (s, sid) of a stream in which no closing frame has been
+   emitted and whose reader has not closed its end: once no frame of that direction is in flight,
+   the bytes read so far followed by the bytes waiting in the reader's pipe are EXACTLY the bytes
+   the writes accepted - every byte, once, in order. *)
+Theorem C01_nothing_lost :
+  forall s sid k unit toA toB ls,
+  (1 <= k)%nat -> 1 <= unit ->
+  fresh_run (init k false unit toA toB) ls -> busy_run k (init k false unit toA toB) ls ->
+  let os := outputs k false unit toA toB ls in
+  let y := reach k false unit toA toB ls in
+  nE (run_frames s sid os) + 2 < two64 -> all_data (run_frames s sid os) ->
+  inflight s sid y = [] -> ron (rview s sid y) ->
+  run_written s sid ls os =
+  run_reads s sid ls os ++ match rview s sid y with Some (rb, _) => pipe rb | None => [] end.
+Proof. exact nothing_lost. Qed.
+Print Assumptions C01_nothing_lost.
